@@ -95,4 +95,9 @@ example : (sendCalls [100, 100, 50]).length = 7 := by decide
 example : ∃ st, runUpload [100, 100, 50] (some ⟨6, .ioError, false⟩) = .error (.ioError, st) ∧ st.marked = false ∧ st.bytes = 250 :=
   ⟨_, rfl, rfl, rfl⟩
 
+-- non-vacuity of the outcome invariants: a fault after a write took effect leaves 200 accepted, 100 flushed bytes
+example : (outcomeState (runUpload [100, 100, 50] (some ⟨3, .died, true⟩))).bytes = 200 ∧
+    (outcomeState (runUpload [100, 100, 50] (some ⟨3, .died, true⟩))).flushedBytes = 100 ∧
+    (outcomeState (runUpload [100, 100, 50] (some ⟨3, .died, true⟩))).ioDone = 4 := by decide
+
 end Tup.C09
